@@ -292,7 +292,8 @@ impl DrawExecutor {
     }
 
     fn draw_line(&mut self, x0: i32, y0: i32, x1: i32, y1: i32, color: u8, mask: usize) {
-        let mut line_mask = LINE_STYLE[mask];
+        // the user defined line type has no entry in the table (its pattern is not implemented): draw it solid
+        let mut line_mask = LINE_STYLE.get(mask).copied().unwrap_or(LINE_STYLE[0]);
         // lines are drawn step by step: keep the end points inside a guard band around the canvas,
         // so that the cost of a line does not follow absurd coordinates
         const GUARD: i32 = 16_384;
